@@ -1,4 +1,5 @@
 import G3d.Model.Intersection
+import G3d.Model.Triangle
 /-! Model of the ray–triangle part of `triangle3d.rs`: `intersect_triangle` (Möller–Trumbore) and
     `Triangle3D::{basic_intersection, intersect_local_ray, simple_intersect_local_ray, intersect, simple_intersect,
     bounds, world_bounds}`.  Only the three stored vertices matter here. -/
@@ -6,24 +7,6 @@ namespace G3d
 open Num
 
 variable {α : Type} [Num α]
-
-/-- `intersect_triangle(ray, vertex0, vertex1, vertex2) -> Option<(Point3D, u, v)>` -/
-def intersectTriangle (ray : Ray α) (vertex0 vertex1 vertex2 : V3 α) : Option (V3 α × α × α) :=
-  let edge1 := vertex1 - vertex0
-  let edge2 := vertex2 - vertex0
-  let h := ray.direction.cross edge2
-  let a := edge1.dot h
-  let tiny : α := tiny100
-  if a >. -tiny && a <. tiny then none else
-  let f : α := 1 / a
-  let s := ray.origin - vertex0
-  let u := f * (s.dot h)
-  if !((0 : α) <=. u && u <=. (1 : α)) then none else
-  let q := s.cross edge1
-  let v := f * (ray.direction.dot q)
-  if !((0 : α) <=. v && v <=. (1 : α)) || (u + v) >. (1 : α) then none else
-  let t := f * (edge2.dot q)
-  if t >. tiny then some (ray.project t, u, v) else none
 
 /-- the vertices `a`, `b`, `c` stored in a `Triangle3D` -/
 structure TriV (α : Type) where
